@@ -42,8 +42,8 @@ def shapes(level):
     def add(kind, *lists):
         q.append({"h": None, "x": [[K[kind]]] + [list(l) for l in lists]})
     big = level == 'thorough'
-    add('SR', rng(0,31) if big else [0,1,2,3], [0,4,8,12] if big else [0,4,8])
-    add('RR', rng(0,31) if big else [0,1,2,3], [0,4,8,12] if big else [0,4,8])
+    add('SR', rng(0,31) if big else [0,1,2,3,11,31], [0,4,8,12] if big else [0,4,8])
+    add('RR', rng(0,31) if big else [0,1,2,3,11,31], [0,4,8,12] if big else [0,4,8])
     add('SDES', rng(0,4) if big else [0,1,2,3], rng(0,4) if big else [0,1,2,3], rng(0,9) + [255] if big else [0,1,2,3,4,5])
     if big: add('SDES', [8,31], [1,2], [1,2])
     add('BYE', rng(0,31) if big else [0,1,2,3], rng(0,12) + [255] if big else rng(0,8))
@@ -71,7 +71,7 @@ def codec(h, level):
     for c in shapes(level):
         d = dict(c); d['h'] = h; out.append(d)
     return out
-CODEC_B = 'every packet type with all field values, texts and payload bytes symbolic, for the shapes: SR and RR reports {0..3} x extension octets {0,4,8}; SDES chunks {0..3} x items per chunk {0..3} x text octets {0..5}; BYE sources {0..3} x reason octets {0..8}; APP data octets {0..12}; NACK pairs {1..4}; RRR; PLI; SLI entries {0..3}; FIR entries {1..3}; REMB SSRCs {0..3} x exponents {1,2,17,46,62,63} (normal mantissa, low bits symbolic) and exponent 0 with mantissa MSB at {0,1,9,17}; CCFB blocks {0,1,2} x metric blocks {0..6} with symbolic begin sequence; TWCC: 9 chunking skeletons (run-length, 1-bit and 2-bit vectors, exact fit, vector overshoot) with symbolic header fields and delta values; XR: the empty report, every single block of the 7 RFC 3611 kinds and 2 unknown-block shapes, and all 81 ordered two-block sequences; Raw {4,8,12} octets'
+CODEC_B = 'every packet type with all field values, texts and payload bytes symbolic, for the shapes: SR and RR reports {0..3,11,31} x extension octets {0,4,8}; SDES chunks {0..3} x items per chunk {0..3} x text octets {0..5}; BYE sources {0..3} x reason octets {0..8}; APP data octets {0..12}; NACK pairs {1..4}; RRR; PLI; SLI entries {0..3}; FIR entries {1..3}; REMB SSRCs {0..3} x exponents {1,2,17,46,62,63} (normal mantissa, low bits symbolic) and exponent 0 with mantissa MSB at {0,1,9,17}; CCFB blocks {0,1,2} x metric blocks {0..6} with symbolic begin sequence; TWCC: 9 chunking skeletons (run-length, 1-bit and 2-bit vectors, exact fit, vector overshoot) with symbolic header fields and delta values; XR: the empty report, every single block of the 7 RFC 3611 kinds and 2 unknown-block shapes, and all 81 ordered two-block sequences; Raw {4,8,12} octets'
 CODEC_BT = 'every packet type with all field values, texts and payload bytes symbolic, for the shapes: SR and RR reports {0..31} x extension octets {0,4,8,12}; SDES chunks {0..4} x items {0..4} x text octets {0..9,255}, and {8,31} chunks x {1,2} items x {1,2} octets; BYE sources {0..31} x reason octets {0..12,255}; APP data octets {0..40}; NACK pairs {1..12,253}; RRR; PLI; SLI entries {0..8}; FIR entries {1..8,31}; REMB SSRCs {0..4,255} x every exponent 1..63 (normal mantissa) and exponent 0 with mantissa MSB at every position 0..17; CCFB blocks {0..3} x metric blocks {0..10}; TWCC: 9 chunking skeletons; XR: empty, 9 single blocks, all 81 ordered pairs and 225 three-block sequences; Raw {4,8,12,16,20,40} octets'
 def c05extra():
     # length-focused shapes: every residue mod 4 of the variable-length parts
@@ -79,7 +79,7 @@ def c05extra():
             {"h":"VpC05","x":[[K['SDES']],[1],[1,2],rng(5,9)]},{"h":"VpC05","x":[[K['BYE']],[1],rng(5,9)]},
             {"h":"VpC05","x":[[K['APP']],[6,7,9]]},{"h":"VpC05","x":[[K['CCFB']],[1],[5]]},{"h":"VpC05","x":[[K['XR']],[10,11,12,13,14,15]]}]
 for pid, h in [('C02','VpC02'),('C03','VpC03'),('C05','VpC05'),('C10','VpC10')]:
-    R[pid] = {"quick": codec(h,'quick'), "thorough": codec(h,'thorough'), "bounds": CODEC_B, "bounds_thorough": CODEC_BT, "require_reach": ["reach:end"], "opts": {"unwind": 300}, "opts_thorough": {"unwind": 8000},
+    R[pid] = {"quick": codec(h,'quick'), "thorough": codec(h,'thorough'), "bounds": CODEC_B, "bounds_thorough": CODEC_BT, "require_reach": ["reach:end"], "opts": {"unwind": 2000}, "opts_thorough": {"unwind": 8000},
         "outside_claim": ["shapes (list lengths, text lengths, block sequences) not listed in the bounds", "RR/SR profile extensions that are not a multiple of four octets (see DESIGN: outside the well-formed domain D of C02/C03)"]}
 for t in ('quick','thorough'):
     R['C10'][t] = R['C10'][t] + [{"h":"VpC10","x":[[K['XR']],[12,13,14,15]]},{"h":"VpC10","x":[[K['XR']],[13],[5,13,4]]}]
@@ -112,7 +112,7 @@ R['C14'] = {
  "quick": [{"h":"VpC14_Decode","x":[rng(0,63)]},{"h":"VpC14_Encode","x":[rng(0,254)]},{"h":"VpC14_Negative","x":[[0,1,100,127,145,200,254]]},
            {"h":"VpC14_RefProps"},{"h":"VpC14_Count","x":[[0,1,2,255]]}],
  "bounds": "decode: all 64 x 2^18 wire pairs (one query per exponent); encode: every finite non-negative float32 (one query per IEEE exponent field 0..254, fraction symbolic, denormals included); negative: 7 exponent fields x all fractions; SSRC lists of length 0,1,2,255",
- "require_reach": ["reach:end"], "opts": {"unwind": 300}, "opts_thorough": {"unwind": 8000},
+ "require_reach": ["reach:end"], "opts": {"unwind": 2000}, "opts_thorough": {"unwind": 8000},
  "assumptions": ["monotonicity, minimal exponent and the rounding gap are proved on the bit-level reference encoder, which VpC14_Encode shows equal to MarshalTo for every finite non-negative float32"],
  "outside_claim": ["NaN and +Inf bitrates (the property quantifies over finite values)"],
 }
@@ -122,11 +122,11 @@ R['C14']['thorough'][4] = {"h":"VpC14_Count","x":[[0,1,2,3,100,254,255]]}
 
 R['C08'] = {
  "quick": [{"h":"VpC08_TotalLost","x":[[0,1]]},
-  {"h":"VpC08_Counts","x":[[0,1,2,3],[30,31,32]]},{"h":"VpC08_Counts","x":[[4],[254,255,256]]},{"h":"VpC08_Counts","x":[[5,6],[252,253,254]]},
+  {"h":"VpC08_Counts","x":[[0,1,2,3],[30,31,32,33,63,64,255,256,257,287,288,512]]},{"h":"VpC08_Counts","x":[[4],[254,255,256,257,511,512,513]]},{"h":"VpC08_Counts","x":[[5,6],[252,253,254,255,256,257,509,510,511]]},
   {"h":"VpC08_Counts","x":[[7],[16383,16384,16385]]},
   {"h":"VpC08_Texts","x":[[0,1],[0,1,254,255,256]]},{"h":"VpC08_Texts","x":[[2],[0,3,4,5]]},
   {"h":"VpC08_SmallFields"},{"h":"VpC08_TWCCDelta","x":[[1,2]],"solver":"cvc5-int"},{"h":"VpC08_REMBSign","x":[[0,1,127,200,254]]}],
- "bounds": "value limits over the whole domain of the field (TotalLost: all uint32 through SR and RR; APP subtype, header count, SDES item type: all uint8; TWCC receive delta: all int64 for both size classes, with a following delta that must keep its position; REMB sign: all negative floats of 5 exponent fields); length limits at limit-1, limit, limit+1 (31 reports/chunks/sources, 255 REMB SSRCs, 253 NACK/SLI entries, 16384 CCFB metric blocks, 255-octet text/reason, 4-octet APP name) with symbolic edge contents",
+ "bounds": "value limits over the whole domain of the field (TotalLost: all uint32 through SR and RR; APP subtype, header count, SDES item type: all uint8; TWCC receive delta: all int64 for both size classes, with a following delta that must keep its position; REMB sign: all negative floats of 5 exponent fields); length limits at limit-1, limit, limit+1 and at the counts where an 8-bit count field or byte arithmetic would wrap (256, 257, 287, 288, 512 for the 5-bit counts; 257, 511..513 for REMB; 255..257, 509..511 for NACK/SLI) (31 reports/chunks/sources, 255 REMB SSRCs, 253 NACK/SLI entries, 16384 CCFB metric blocks, 255-octet text/reason, 4-octet APP name) with symbolic edge contents",
  "require_reach": ["reach:end"], "opts": {"unwind": 40000, "alloc": 70000},
  "outside_claim": ["fields the encoders mask without error that the property does not enumerate (SLI First/Number/Picture, CCFB offset/ECN, TWCC reference time and run length, XR T/ToH)"],
 }
@@ -184,15 +184,15 @@ def c09(level):
     L = [4,8,12,16,20,24,28] + ([32,36] if big else [])
     up = lambda m: [l for l in L if l <= m]
     q = [{"h":"VpC09","x":[L,[0,200,201,204],[-1]]},
-         {"h":"VpC09","x":[up(20 if big else 16),[202,203,206],[-1]]},
-         {"h":"VpC09","x":[up(16 if big else 12),[207],[-1]]},
+         {"h":"VpC09","x":[up(16),[202,203,206],[-1]]},
+         {"h":"VpC09","x":[up(12),[207],[-1]]},
          {"h":"VpC09","x":[L,[205],[1,5,0]]},
-         {"h":"VpC09","x":[up(24 if big else 20),[205],[11]]},
+         {"h":"VpC09","x":[up(20),[205],[11]]},
          {"h":"VpC09","x":[up(20),[205],[15]]}]
     return q
 R['C09'] = {"quick": c09('quick'), "thorough": c09('thorough'),
  "bounds": "one well-framed frame, all bytes other than version, packet type and length symbolic: 4..28 octets for unknown types, SR, RR, APP and RTPFB FMT 1/5/other; 4..16 for SDES, BYE and PSFB (every FMT); 4..12 for XR; 4..20 for CCFB and TWCC (status count <= 8); decode, re-encode (panic freedom), re-decode on every possible output length and field-wise comparison",
- "bounds_thorough": "as quick with 36 / 20 / 16 / 24 octets respectively",
+ "bounds_thorough": "as quick with frames up to 36 octets for the packet-type classes {not 200..207, 200, 201, 204} and the 205 FMT classes 1, 5 and other; SDES, BYE, PSFB, XR, CCFB and TWCC frames as in the quick tier (longer ones did not finish within 30 minutes)",
  "require_reach": ["reach:end","reach:accepted"], "opts": {"unwind": 100},
  "assumptions": ["TransportLayerCC is compared only when its decoded header is consistent with its content, as the property states"],
  "outside_claim": ["datagrams with several frames (locality is C06)", "frames longer than the bound"]}
@@ -222,7 +222,7 @@ def c04(level):
 R['C04'] = {"quick": c04('quick'), "thorough": c04('thorough'),
  "bounds": "canonical RFC encodings (independent reference encoder) of every model value of the codec shapes: " + CODEC_B + "; count-inflated SR/RR/SDES/BYE headers (inflation d symbolic) on 13 shapes; reserved bits: XR header count bits and the reserved bits/octets of each single XR block kind, FIR reserved octets; APP packets with the padding bit for 9 (data, padding) length pairs with symbolic padding octets; CCFB not-received metric blocks with all 2^15 stray bit patterns",
  "bounds_thorough": "as quick on the thorough codec shapes",
- "require_reach": ["reach:end"], "opts": {"unwind": 300}, "opts_thorough": {"unwind": 8000},
+ "require_reach": ["reach:end"], "opts": {"unwind": 2000}, "opts_thorough": {"unwind": 8000},
  "assumptions": ["alternative TWCC chunkings are checked under C13, unnormalised REMB pairs under C14 (all 2^24 wire pairs)", "CCFB num_reports is written in the library's pinned n-1 convention (RFC text unavailable offline)"],
  "outside_claim": ["shapes not listed", "SDES chunks with more than the minimal null padding"]}
 def c18(level):
@@ -238,7 +238,7 @@ def c18(level):
     return q
 R['C18'] = {"quick": c18('quick'), "thorough": c18('thorough'),
  "bounds": "frame conditions for all field values of the codec shapes (" + CODEC_B + "): Marshal, MarshalSize, DestinationSSRC, String executed twice in interleaved order on a frozen value; decode frame conditions on one symbolic frame of 4..20 octets per packet-type class (4..16 for SDES/BYE/PSFB, 8..12 XR, 12..20 RTPFB), through rtcp.Unmarshal and CompoundPacket.Unmarshal",
- "require_reach": ["reach:end"], "opts": {"unwind": 300, "fmtmethods": 1}, "opts_thorough": {"unwind": 8000},
+ "require_reach": ["reach:end"], "opts": {"unwind": 2000, "fmtmethods": 1}, "opts_thorough": {"unwind": 8000},
  "assumptions": ["the schedule/history quantifier is discharged by reduction (DESIGN C18): the solver decides, for all inputs in the bound, that no operation stores into an object that existed before the call (other than the documented XRHeader fields), into its input buffer or into a package-level variable, and that repeated calls return equal results; freedom from data races and schedule independence then follow from the Go memory model by a pencil-and-paper non-interference argument, not by exploring interleavings", "synchronisation inside fmt/reflect (sync.Pool, type caches) is trusted"],
  "outside_claim": ["actual exploration of goroutine interleavings", "shapes and frame lengths beyond the bound"]}
 kinds9 = rng(1,9)
@@ -247,7 +247,7 @@ R['C15'] = {
  "thorough": [{"h":"VpC15","a":[[]] + [[k] for k in kinds9] + [[k1,k2] for k1 in kinds9 for k2 in kinds9] + [[k1,k2,k3] for k1 in [1,3,5,6,8] for k2 in kinds9 for k3 in [2,4,7,9,8]]}],
  "bounds": "every sequence of 0, 1 and 2 report blocks over the 7 RFC 3611 kinds and two unknown-block shapes (block type symbolic over 0 and 8..255, 0 or 4 content octets), all scalar fields symbolic, RLE blocks with 2 chunks, 2 receipt times, 1 DLRR sub-block",
  "bounds_thorough": "as quick plus 225 three-block sequences",
- "require_reach": ["reach:end"], "opts": {"unwind": 300}, "opts_thorough": {"unwind": 8000},
+ "require_reach": ["reach:end"], "opts": {"unwind": 2000}, "opts_thorough": {"unwind": 8000},
  "assumptions": ["reflect is modelled by the engine against go/types of the current source (struct field order, tags, exportedness, sizes)"],
  "outside_claim": ["longer block sequences and other list lengths", "RLE blocks with an odd number of chunks (recorded under C05)"]}
 # TWCC packets with typed chunks: [status count, delta octets, kinds...]; kinds: 0 run-length chunk with symbolic
@@ -271,22 +271,24 @@ cheap = [1,2,4,5,6,7,10,11,12,13,15,17,18,20,21,22,23]
 def c01(level):
     big = level == 'thorough'
     q = [{"h":"VpC01_Decode","x":[cheap, rng(0, 40 if big else 32)]},
-         {"h":"VpC01_Decode","x":[[3,19], rng(0, 24 if big else 18)]},
-         {"h":"VpC01_Decode","x":[[14], rng(0, 28 if big else 22)]},
+         {"h":"VpC01_Decode","x":[[3,19], rng(0, 20 if big else 18)]},
+         {"h":"VpC01_Decode","x":[[14], rng(0, 26 if big else 22)]},
          {"h":"VpC01_Decode","x":[[9], rng(0, 36 if big else 30)]},
          {"h":"VpC01_Decode","x":[[8], rng(0, 22)]}]
     q.append({"h":"VpC01_TWCCTyped","a":TYPED_T if big else TYPED_Q,"solver":"z3-new"})
-    fr = framing(20 if big else 12)
-    q.append({"h":"VpC01_Datagram","a":[[0] + f for f in fr] + [[16] + f for f in fr]})
+    q.append({"h":"VpC01_TWCCWrap","a":[[3]],"opts":{"unwind":250000,"alloc":300000}})
+    fr = framing(16 if big else 12)
+    # datagrams of at most 16 octets: no loop of the decoders has more than 17 legitimate iterations
+    q.append({"h":"VpC01_Datagram","a":[[0] + f for f in fr] + [[16] + f for f in fr],"opts":{"unwind":24}})
     return q
 R['C01'] = {
  "quick": c01('quick'), "thorough": c01('thorough'),
- "bounds": "every buffer length 0..32 for the 17 fixed-layout decoders and sub-decoders, 0..18 for SourceDescription and SourceDescriptionChunk, 0..22 for ExtendedReport, 0..30 for CCFeedbackReport, 0..22 for TransportLayerCC (packet status count <= 8), plus TransportLayerCC packets of up to 36 octets with typed chunks (one symbolic one-bit/two-bit vector or run-length chunk, or a vector followed by a run; status counts up to 14; the cases of C13); datagram entry points (rtcp.Unmarshal, CompoundPacket.Unmarshal): every length 0..12 under every composition into frames plus arbitrary tail; all byte contents symbolic; every loop unwound under an unwinding assertion (limit 80); allocation counted against 4 MiB + 64 bytes per input byte",
- "bounds_thorough": "as quick with lengths 0..40 (fixed-layout), 0..24 (SDES), 0..28 (XR), 0..36 (CCFB), datagrams 0..20",
+ "bounds": "every buffer length 0..32 for the 17 fixed-layout decoders and sub-decoders, 0..18 for SourceDescription and SourceDescriptionChunk, 0..22 for ExtendedReport, 0..30 for CCFeedbackReport, 0..22 for TransportLayerCC (packet status count <= 8), a 76-octet TransportLayerCC packet with status count 65535 whose chunk area repeats 3 times (8 runs of 8191 received packets, one all-ones vector) with symbolic header fields (the status-counter wrap), plus TransportLayerCC packets of up to 36 octets with typed chunks (one symbolic one-bit/two-bit vector or run-length chunk, or a vector followed by a run; status counts up to 14; the cases of C13); datagram entry points (rtcp.Unmarshal, CompoundPacket.Unmarshal): every length 0..12 under every composition into frames plus arbitrary tail; all byte contents symbolic; every loop unwound under an unwinding assertion (limit 80); allocation counted against 4 MiB + 64 bytes per input byte",
+ "bounds_thorough": "as quick with lengths 0..40 (fixed-layout), 0..20 (SDES), 0..26 (XR), 0..36 (CCFB), datagrams 0..16, and the thorough list of typed TWCC cases",
  "opts": {"unwind": 80},
  "require_reach": ["reach:end"],
- "assumptions": ["TransportLayerCC: packet status count <= 8 (bounded part); larger counts and the status-loop counter wrap are outside this check"],
- "outside_claim": ["inputs longer than the stated lengths", "TransportLayerCC packet status counts above 8, including the uint16 wrap of the processed-packet counter near 65535 (found by reading, reproduced by a hand-built 1108-byte datagram: 3.9M allocations / 224 MiB; recorded in DESIGN.md, not decidable by bounded unrolling)", "Go runtime allocator slack, stack depth"],
+ "assumptions": ["TransportLayerCC with fully symbolic bytes: packet status count <= 8; larger counts only in the typed-chunk cases and in the concrete-chunk counter-wrap case"],
+ "outside_claim": ["inputs longer than the stated lengths", "TransportLayerCC packets with fully symbolic chunk words and packet status counts above 8; chunk sequences near the 16-bit status counter limit other than the registered one (the wrap found there was repaired by fix commit 0f84397)", "Go runtime allocator slack, stack depth"],
 }
 
 for pid in ('C06','C12','C13'):
